@@ -95,6 +95,94 @@ def gen_lines(rng, tier):
     return lines, labels
 
 
+def sweep_lines(rng, tier):
+    """EVERY destination capacity 0..bound+1 for a handful of small inputs (exact-size heap destination under
+    ASan): 'a destination smaller than the bound is refused or handled without overflow' seen from the
+    implementation; the per-write space checks of the compressors are 1-2 bytes short on length-extension
+    bytes, so only a full sweep lands in the gap."""
+    ins = [CL.rnd(rng, 100), CL.rnd(rng, 1000), CL.rnd(rng, 40) * 7 + CL.rnd(rng, 20),
+           bytes([rng.getrandbits(8)]) * 300, b"test" * 75, CL.rnd(rng, 5), b""]
+    for L in (14, 15, 16, 270):
+        pat = CL.rnd(rng, 24)
+        ins.append(pat + bytes([pat[-1] ^ 0x55]) + CL.rnd(rng, L) + pat + CL.rnd(rng, 13))
+    if tier == "thorough":
+        ins += [CL.rnd(rng, n) for n in (254, 255, 256, 269, 270, 271, 525, 2000)] + [CL.rnd(rng, 33) * 40, CL.rnd(rng, 300) * 5]
+    lines = []
+    for op in ("scomp", "lcomp"):
+        for x in ins:
+            n = len(x)
+            b = (32 + n + n // 6) if op == "scomp" else (n + n // 255 + 16)
+            for cap in range(0, b + 2):
+                lines.append(f"{op} {cap - b} {hexs(x)}")
+    return lines
+
+
+def history_lines(rng, tier):
+    """HISTORIES of calls on one thread (the codecs may keep per-thread state): a refused short-destination call
+    followed by bound-sized calls, levels interleaved, compress / decompress (also of damaged data) interleaved,
+    several inputs; every success is verified by carquet's decompressor and by the system library."""
+    lines = []
+    nh = 30 if tier == "quick" else 200
+    for codec, levels in (("zstd", list(range(1, 23)) + [0, -1, 23, 100]), ("gzip", list(range(1, 10)) + [0, -5, 10, 100]),
+                          ("snappy", [0]), ("lz4", [0])):
+        for h in range(nh if codec in ("zstd", "gzip") else nh // 2):
+            k = rng.choice([1, 2, 3])
+            xs = []
+            for _ in range(k):
+                n = rng.choice([0, 1, 100, 1000, 5000, 20000, rng.randrange(0, 3000), 140000 if rng.random() < 0.15 else 300])
+                kind = rng.random()
+                xs.append(CL.rnd(rng, n) if kind < 0.5 else (b"some text, " * (n // 11 + 1))[:n] if kind < 0.8 else bytes([rng.getrandbits(8)]) * n)
+            steps = []
+            for _ in range(rng.randrange(3, 9)):
+                i = rng.randrange(k)
+                n = len(xs[i])
+                short = rng.choice([0, 1, 10, n // 10, n // 2, n, max(0, n - 1), n + 1, n + 5])
+                lv = rng.choice(levels)
+                r = rng.random()
+                if r < 0.35:
+                    steps.append(f"c{i}:{lv}:{short}")
+                    steps.append(f"c{rng.randrange(k)}:{rng.choice(levels)}:b")     # the call AFTER a (possibly) refused one
+                elif r < 0.75:
+                    steps.append(f"c{i}:{lv}:{rng.choice(['b', 'b', 'b+1', 'b-1', 'b+100'])}")
+                else:
+                    steps.append(f"t{i}")
+            lines.append(f"hist {codec} {k} " + " ".join(hexs(x) for x in xs) + " " + ",".join(steps))
+    return lines
+
+
+def judge_hist(line, out):
+    """Property oracle for a history: every compress step with cap >= bound must succeed; every success must report
+    at most cap bytes and be decoded to its input by carquet and by the system library; damaged data must not
+    decode to the input."""
+    t = line.split()
+    codec = t[1]
+    steps = t[-1].split(",")
+    res = out.split()
+    if len(res) != len(steps):
+        return [f"carquet_{codec}: crash / malformed driver output in a call history: {out[:200]}"]
+    bad = []
+    for j, (st, r) in enumerate(zip(steps, res)):
+        f = r.split(":")
+        prev = ", ".join(f"{a} -> {b}" for a, b in list(zip(steps, res))[max(0, j - 2):j])
+        ctx = f"step {j} `{st}` of a call history on one thread" + (f" (after {prev})" if prev else "")
+        if f[0] == "OK":
+            clen, cap, bound, rt, lib = int(f[1]), int(f[2]), int(f[3]), f[4], f[5]
+            if clen > cap:
+                bad.append(f"carquet_{codec}_compress reports {clen} bytes for a destination of {cap}: {ctx}")
+            elif rt != "1" or lib != "1":
+                bad.append(f"carquet_{codec}_compress returned OK ({clen} bytes, destination {cap}, bound {bound}) but the output does not "
+                           f"decode to the input (carquet rt={rt}, system library={lib}): {ctx}")
+        elif f[0] == "ERR":
+            cap, bound = int(f[2]), int(f[3])
+            if cap >= bound:
+                bad.append(f"carquet_{codec}_compress fails (status {f[1]}) with a destination of {cap} >= its bound {bound}: {ctx}")
+        elif f[0] == "T" and f[1] == "OK" and f[2] != "1":
+            bad.append(f"carquet_{codec}_decompress accepts a truncated stream with wrong bytes: {ctx}")
+        elif f[0] == "BAD":
+            bad.append(f"driver could not parse {st}")
+    return bad
+
+
 def gen_ext_lines(rng, tier):
     """gzip / zstd through carquet's wrappers"""
     sizes = [0, 1, 2, 100, 5000, 70000] + ([300000] if tier == "quick" else [300000, 2 * 1024 * 1024])
@@ -134,7 +222,9 @@ def run(tier):
     rep.cov["rule"] = ("snappy, lz4: inputs empty, 1..20 bytes, all-equal, two-symbol, random, literal runs 0..271 x matches 4..275 (60/61, 64/67/68 boundaries), "
                        "tails 0..19 bytes after the last match, offsets around 2048 / 32768 / 65535, > 64 KiB and > 128 KiB inputs with periods 65535 / 65536 / 65537 / 32768 "
                        "(16-bit table position aliasing), 200 KB of zeros; destination capacities bound-1, bound, bound+1 and far below; "
+                       "EVERY capacity 0..bound+1 for eleven small inputs (random 100 / 1000, period 40, literal runs 14/15/16/270, runs, empty, tiny) per codec; "
                        "gzip levels 1-9 and zstd levels 1-22 plus out-of-range levels x sizes 0 .. 300 KB (thorough 2 MiB) x the three capacities; "
+                       "call histories on one thread for all four codecs (short destination then bound-sized, levels and inputs interleaved, truncated-data decompress in between), every success verified by the system library; "
                        "non-trivial = non-empty input; distinct by case text")
     try:
         drv = build_driver("h_comp", libs=LIBS)
@@ -149,9 +239,24 @@ def run(tier):
             lines += [l.strip() for l in f.read_text().splitlines() if l.strip()]
     gl, labels = gen_lines(rng, tier)
     lines += gl
+    sw = sweep_lines(rng, tier)
+    for l in sw:
+        labels[l] = "capacity-sweep"
+    lines += sw
+    hist = history_lines(rng, tier)
     ext = gen_ext_lines(rng, tier)
     allc = lines + ext
-    impl, deaths = CL.run_all(vlib, drv, allc, timeout=2400)
+    impl, deaths = CL.run_all(vlib, drv, allc, timeout=2400, max_deaths=40)
+    hout, hdeaths = CL.run_all(vlib, drv, hist, timeout=2400)
+    deaths = deaths + hdeaths
+    nh_ok = 0
+    for line, out in zip(hist, hout):
+        if out == "FAULT died":
+            continue
+        rep.count(line[:4000])
+        for b in judge_hist(line, out):
+            rep.violation(b, {"case": line if len(line) < 600000 else line[:600000], "impl": out[:300]})
+        nh_ok += 1
     for case, rc, summ in deaths:
         rep.violation(f"sanitizer report or crash (rc={rc}) in compress/decompress with an exact-size buffer: {summ}",
                       {"case": case if case and len(case) < 300000 else (case or "")[:300000]})
@@ -190,6 +295,8 @@ def run(tier):
         if mo.split() != ["OK", str(b)]:
             rep.tie_broken(f"bound formula of the model differs from carquet_{'snappy' if o == 'sbound' else 'lz4'}_compress_bound({n}) = {b}: model {mo}", f"{o} {n}")
     rep.cov["input_distribution"] = dist
+    rep.cov["capacity_sweep_cases"] = len(sw)
+    rep.cov["call_histories"] = len(hist)
     rep.cov["bound_formula_points_compared"] = len(bl)
     rep.sample({"case": lines[25][:200]})
     rep.sample({"case": ext[10][:200]})
@@ -212,7 +319,7 @@ def replay(path):
         print(CL.san_summary(err))
     if rc != 0 or not out:
         return 1
-    bad = judge(case, out[0])[0]
+    bad = judge_hist(case, out[0]) if case.startswith("hist ") else judge(case, out[0])[0]
     for b in bad:
         print("FAILS:", b)
     return 1 if bad else 0
